@@ -492,6 +492,16 @@ def handleMerge (req : Json) : Except String Json := do
                         ("both", reply (Merge.patchBoth base ld rd) encJ),
                         ("as_local", reply (side "local") encJ), ("as_remote", reply (side "remote") encJ),
                         ("local", reply (patch base ld) encJ), ("remote", reply (patch base rd) encJ)])
+  | .ok (.str "mixedwise") =>
+      let k := (req.getObjValAs? String "key").toOption.getD "cells"
+      let side := fun (s : String) => (do
+        let ds ← Merge.decideMerge E base ld rd
+        applyAs s base (ds.map Merge.MD.toDecision) : Except Err J)
+      pure (Json.mkObj [("ok", .bool (Merge.mixedwise base k ld rd)),
+                        ("merged", reply (Merge.mergeApply E base ld rd) encJ),
+                        ("both", reply (Merge.patchBothMixed base k ld rd) encJ),
+                        ("as_local", reply (side "local") encJ), ("as_remote", reply (side "remote") encJ),
+                        ("local", reply (patch base ld) encJ), ("remote", reply (patch base rd) encJ)])
   | .ok (.str "keywise") =>
       let side := fun (s : String) => (do
         let ds ← Merge.decideMerge E base ld rd
